@@ -7,6 +7,7 @@ masked; creation times replaced by their rank) is hashed to deduplicate."""
 import copy
 import collections
 
+from mc import adapt as A
 from mc import keys as K
 from refpgp import keys as rkeys, sig as rsig, tpk, wire, armor as rarmor
 
@@ -115,7 +116,7 @@ class World(object):
 
     def _uid(self, name):
         want = {'A': UID_A, 'B': UID_B}.get(name)
-        for u in self.key._uids:
+        for u in A.identities(self.key):
             if name == 'IMG' and u.is_ua:
                 return u
             if u.is_uid and u.userid == want:
